@@ -223,7 +223,7 @@ def reference(stimuli, await_all):
     replied = False
     reply_at = None
     own_before_reply = False
-    can_ok, can_fail, any_own_ok = [], [], []
+    can_ok, can_fail, any_own_ok, any_own_fail = [], [], [], []
     own_seen = 0
     for i, s in enumerate(stimuli):
         if s[0] == "R":
@@ -247,7 +247,9 @@ def reference(stimuli, await_all):
         can_ok.append(c_ok)
         can_fail.append(bool(att) and att <= failed and not ok)
         any_own_ok.append(bool(ok))
-    return {"can_ok": can_ok, "can_fail": can_fail, "any_own_ok": any_own_ok, "reply_at": reply_at,
+        any_own_fail.append(bool(failed))
+    return {"can_ok": can_ok, "can_fail": can_fail, "any_own_ok": any_own_ok, "any_own_fail": any_own_fail,
+            "reply_at": reply_at,
             "own_before_reply": own_before_reply, "own_events": own_seen}
 
 
@@ -490,8 +492,12 @@ def run_case(case, rec):
         # ---- safety --------------------------------------------------------------------------
         if p is not None:
             rec.count("outcomes_compared")
+            # own events before the creating reply may or may not be taken into account by a correct
+            # implementation (Tor does not send them): there only the weakest form is demanded
+            just_ok = ref["any_own_ok"] if lenient else ref["can_ok"]
+            just_fail = ref["any_own_fail"] if lenient else ref["can_fail"]
             if run.ok:
-                if not any(ref["can_ok"][:p + 1]):
+                if not any(just_ok[:p + 1]):
                     if not any(ref["any_own_ok"][:p + 1]):
                         V("completed-without-own-confirmed-upload", "trigger=" + describe(stimuli, p), detail)
                     else:
@@ -499,7 +505,7 @@ def run_case(case, rec):
                 if not run.value_ok:
                     V("completed-with-wrong-service", "trigger=" + describe(stimuli, p), detail)
             else:
-                if not any(ref["can_fail"][:p + 1]):
+                if not any(just_fail[:p + 1]):
                     V("failed-although-not-all-own-uploads-failed", "trigger=" + describe(stimuli, p), detail)
             if stimuli[p][0] == "f":
                 V("fired-at-foreign-event", "trigger=" + describe(stimuli, p), detail)
@@ -620,6 +626,7 @@ def shard_cases(spec):
 
 def run_shard(spec, rec):
     quiet_logs()
+    OT.memoize_pem_loading()
     OT.KEYS.rsa(0)
     try:
         mode = spec["mode"]
@@ -655,6 +662,7 @@ def run_shard(spec, rec):
 
 def replay(case, rec):
     quiet_logs()
+    OT.memoize_pem_loading()
     OT.KEYS.rsa(0)
     case["stimuli"] = [list(s) for s in case["stimuli"]]
     try:
